@@ -34,7 +34,37 @@ Record config := {
   c_scr : nat -> list sop;   (* script of every thread *)
   c_fix_exit : bool;
   c_fix_add : bool;
+  (* loop configuration: which optional callbacks are installed.  [c_bare] = a bare
+     muggle_event_loop_t (no socket_evloop_handle attached): the flags are the loop's own
+     cb_wake / cb_read / cb_close / cb_clear / cb_exit / cb_timer and [c_nctx] contexts are
+     registered by the creating thread before anything else runs.  Otherwise the handle is
+     attached (all loop-level callbacks are the handle's internal functions) and the flags are the
+     handle's user callbacks cb_wake / cb_add_ctx / cb_release / cb_msg (read) / cb_close /
+     cb_timer.  Peers are silent and no timeout is set, so read / close / timer callbacks are
+     never invoked whatever their flag; the WAKE -> EXIT promotion, the exit test and every
+     release must not depend on any flag. *)
+  c_bare : bool;
+  c_nctx : nat;
+  c_cb_wake : bool;
+  c_cb_add : bool;
+  c_cb_release : bool;
+  c_cb_read : bool;
+  c_cb_close : bool;
+  c_cb_clear : bool;
+  c_cb_exit : bool;
+  c_cb_timer : bool;
 }.
+
+(* the configuration of the first rounds of checking: handle attached, every callback installed *)
+Definition mk_cfg (be : backend) (n lp cap : nat) (scr : nat -> list sop) (fx fa : bool) : config :=
+  {| c_be := be; c_n := n; c_loop := lp; c_cap := cap; c_scr := scr; c_fix_exit := fx; c_fix_add := fa;
+     c_bare := false; c_nctx := 0; c_cb_wake := true; c_cb_add := true; c_cb_release := true;
+     c_cb_read := true; c_cb_close := true; c_cb_clear := true; c_cb_exit := true; c_cb_timer := true |}.
+(* a bare loop with the given wake / clear / exit callbacks (read, close, timer not installed) *)
+Definition mk_bare (be : backend) (n lp cap : nat) (scr : nat -> list sop) (nctx : nat) (w cl ex : bool) : config :=
+  {| c_be := be; c_n := n; c_loop := lp; c_cap := cap; c_scr := scr; c_fix_exit := true; c_fix_add := true;
+     c_bare := true; c_nctx := nctx; c_cb_wake := w; c_cb_add := false; c_cb_release := false;
+     c_cb_read := false; c_cb_close := false; c_cb_clear := cl; c_cb_exit := ex; c_cb_timer := false |}.
 
 Inductive phase := PhDrain | PhClear | PhExit.
 
@@ -164,6 +194,8 @@ Definition n_release : nat := 8.
 Definition n_free : nat := 9.
 Definition n_wake : nat := 10.
 Definition n_returned : nat := 11.
+Definition n_clear : nat := 12.     (* bare loop: cb_clear of a registered context *)
+Definition n_exitcb : nat := 13.    (* bare loop: cb_exit *)
 
 Definition zn (n : nat) : Z := Z.of_nat n.
 Definition ev_yield := LEv (Ev OPlain cell_op MoNone 0 0 0).
@@ -201,11 +233,18 @@ Fixpoint drain (C : config) (q rg lk : list nat) (notes : list (nat * Z))
   | id :: q' =>
     if add_fails C rg then
       if c_fix_add C then (q, rg, lk, notes, Some id)
-      else drain C q' rg (lk ++ [id]) (notes ++ [(n_addfail, zn id)])
-    else drain C q' (rg ++ [id]) lk (notes ++ [(n_addok, zn id)])
+      else drain C q' rg (lk ++ [id]) (notes ++ (if c_cb_add C then [(n_addfail, zn id)] else []))
+    else drain C q' (rg ++ [id]) lk (notes ++ (if c_cb_add C then [(n_addok, zn id)] else []))
   end.
 
-Definition rel_notes (id : nat) : list (nat * Z) := [(n_release, zn id); (n_free, zn id)].
+Definition rel_notes (C : config) (id : nat) : list (nat * Z) :=
+  (if c_cb_release C then [(n_release, zn id)] else []) ++ [(n_free, zn id)].
+Definition wake_notes (C : config) : list (nat * Z) := if c_cb_wake C then [(n_wake, 0%Z)] else [].
+(* bare loop, after the break: muggle_evloop_run walks ctx_list calling cb_clear (when installed),
+   then cb_exit (when installed), then returns *)
+Definition bare_exit_notes (C : config) : list (nat * Z) :=
+  (if c_cb_clear C then map (fun i => (n_clear, zn i)) (seq 0 (c_nctx C)) else []) ++
+  (if c_cb_exit C then [(n_exitcb, 0%Z)] else []) ++ [(n_returned, 0%Z)].
 
 (* on_wake's loop over the queue, from the current position to the next scheduling point *)
 Definition seg_drain (C : config) (s1 : sys) (t : nat) (n0 : list (nat * Z)) : option (sys * label) :=
@@ -241,6 +280,9 @@ Definition step (C : config) (s : sys) (t ch : nat) : option (sys * label) :=
     match nth_error (c_scr C t) k with
     | Some OpW => Some (go (AWrite k), LPlain [(n_opw, zn k)])
     | Some OpH =>
+      (* without a handle there is no hand-over queue: the drivers execute the operation as a
+         plain wake-up *)
+      if c_bare C then Some (go (AWrite k), LPlain [(n_opw, zn k)]) else
       let id := next_id s in
       Some (set_pc (set_next_id s (S id)) t (AHLock k id), LPlain [(n_oph, zn id)])
     | Some OpX =>
@@ -275,7 +317,17 @@ Definition step (C : config) (s : sys) (t ch : nat) : option (sys * label) :=
   | SRepoll => Some (go APoll, LPlain [])
   | SPollRet => Some (go ARead, LPlain [])
   | ARead => Some (set_pc (set_cnt s 0) t SWake, ev_read (cnt s))
-  | SWake => Some (set_pc (set_w_seen s (w_req s)) t AWLock, LPlain [])
+  | SWake =>
+    if c_bare C then
+      (* bare loop: cb_wake (when installed); if (to_exit == WAKE) to_exit = EXIT; exit test;
+         after the break the clear callbacks, the exit callback and the return - no scheduling
+         point in between *)
+      let te := if Nat.eqb (to_exit s) ST_WAKE then ST_EXIT else to_exit s in
+      let s1 := set_to_exit (set_w_seen s (w_req s)) te in
+      if Nat.eqb te ST_EXIT then
+        Some (set_pc (set_returned (set_exitdr s1 true) true) t AFin, LPlain (wake_notes C ++ bare_exit_notes C))
+      else Some (set_pc s1 t APoll, LPlain (wake_notes C))
+    else Some (set_pc (set_w_seen s (w_req s)) t AWLock, LPlain [])
   | AWLock =>
     match mtx s with
     | None => Some (set_pc (set_mtx s (Some t)) t (SRel PhDrain None), ev_mlock)
@@ -284,7 +336,7 @@ Definition step (C : config) (s : sys) (t ch : nat) : option (sys * label) :=
   | SRel PhDrain None => seg_drain C s t []
   | SRel PhDrain (Some id) =>
     (* id (head of the queue) has just been released because it could not be registered *)
-    seg_drain C (set_g_relfail (set_queue s (tl (queue s))) (g_relfail s ++ [id])) t (rel_notes id)
+    seg_drain C (set_g_relfail (set_queue s (tl (queue s))) (g_relfail s ++ [id])) t (rel_notes C id)
   | ARel ph id => Some (go (SRel ph (Some id)), ev_rel id)
   | AWUnlock => Some (set_pc (set_mtx s None) t SWakeEnd, ev_munlock)
   | SWakeEnd =>
@@ -294,12 +346,12 @@ Definition step (C : config) (s : sys) (t ch : nat) : option (sys * label) :=
     let s1 := set_to_exit s te in
     if Nat.eqb te ST_EXIT then
       match reg s with
-      | id :: r => Some (set_pc (set_clr s1 r) t (ARel PhClear id), LPlain [(n_wake, 0%Z)])
-      | [] => Some (set_pc s1 t AXLock, LPlain [(n_wake, 0%Z)])
+      | id :: r => Some (set_pc (set_clr s1 r) t (ARel PhClear id), LPlain (wake_notes C))
+      | [] => Some (set_pc s1 t AXLock, LPlain (wake_notes C))
       end
-    else Some (set_pc s1 t APoll, LPlain [(n_wake, 0%Z)])
+    else Some (set_pc s1 t APoll, LPlain (wake_notes C))
   | SRel PhClear None => seg_clear s t []
-  | SRel PhClear (Some id) => seg_clear (set_g_relclear s (g_relclear s ++ [id])) t (rel_notes id)
+  | SRel PhClear (Some id) => seg_clear (set_g_relclear s (g_relclear s ++ [id])) t (rel_notes C id)
   | AXLock =>
     match mtx s with
     | None => Some (set_pc (set_exitdr (set_mtx s (Some t)) true) t (SRel PhExit None), ev_mlock)
@@ -307,7 +359,7 @@ Definition step (C : config) (s : sys) (t ch : nat) : option (sys * label) :=
     end
   | SRel PhExit None => seg_exit s t []
   | SRel PhExit (Some id) =>
-    seg_exit (set_g_relexit (set_queue s (tl (queue s))) (g_relexit s ++ [id])) t (rel_notes id)
+    seg_exit (set_g_relexit (set_queue s (tl (queue s))) (g_relexit s ++ [id])) t (rel_notes C id)
   | AXUnlock => Some (set_pc (set_mtx s None) t SRet, ev_munlock)
   | SRet => Some (set_pc (set_returned s true) t AFin, LPlain [(n_returned, 0%Z)])
   | AFin => Some (go Done, LExit)
